@@ -30,6 +30,7 @@ def run(prog, rep):
     rep.expect_min("C15.coords", 2)
     rep.expect_min("C15.shape", 2)
     rep.expect_min("C15.perm", 2)
+    rep.expect_min("C15.graph", 1)
     from .purity import row as _stateless_row
     rep.part(_stateless_row, prog, rep, "C15", 3)
 
@@ -216,6 +217,47 @@ def sorter(prog, rep):
         ok = ok and xs == ys
     rep.check(ok, "C15.perm", f"{q}:same-order", fn.where(rets[-1]), "returns x[order], y[order] with the same order",
               f"x and y must be reordered with the SAME index list; found {show(t)[:200]}")
+    # the neighbour graph that is traversed: built from ALL points, and no edge is taken out of it afterwards
+    graphs = [s_ for o in orders for s_ in walk(o) if s_[0] == "call" and s_[1] == G("networkx.dfs_preorder_nodes") and s_[2]]
+    kg = set()
+    for g_ in graphs:
+        for s_ in walk(g_[2][0]):
+            if s_[0] == "call" and s_[1][0] == "attr" and s_[1][2] == "kneighbors_graph":
+                kg.add(s_)
+    pts = ("cols", (P("x"), P("y")))
+    okg = len(kg) == 1
+    whyg = f"expected one kneighbors_graph() behind the traversal, found {len(kg)}"
+    if okg:
+        k0 = next(iter(kg))
+        fitted = k0[1][1]
+        okg = fitted[0] == "call" and fitted[1][0] == "attr" and fitted[1][2] == "fit" and fitted[2] == (pts,) \
+            and dict(k0[3]).get("mode", ("const", "connectivity")) == ("const", "connectivity") and not k0[2]
+        whyg = f"the traversal graph must be the connectivity graph of a neighbour search fitted to ALL points np.c_[x, y]; found {show(k0)[:160]}"
+    holders = set()
+    for st in cfg.all_stmts():
+        if isinstance(st, ast.Assign) and isinstance(st.targets[0], ast.Name) and isinstance(st.value, ast.Call):
+            tv = b.term(st.value, st)
+            if tv in kg or (tv[0] == "call" and tv[1] == G("networkx.from_scipy_sparse_array")):
+                holders.add(st.targets[0].id)
+    cut = []
+    for st in cfg.all_stmts():
+        tg = None
+        if isinstance(st, (ast.Assign, ast.AugAssign)):
+            tg = st.targets[0] if isinstance(st, ast.Assign) else st.target
+            root = tg
+            while isinstance(root, (ast.Subscript, ast.Attribute)):
+                root = root.value
+            if isinstance(tg, (ast.Subscript, ast.Attribute)) and isinstance(root, ast.Name) and root.id in holders:
+                cut.append(st)
+        elif isinstance(st, ast.Expr) and isinstance(st.value, ast.Call) and isinstance(st.value.func, ast.Attribute):
+            root = st.value.func.value
+            while isinstance(root, (ast.Subscript, ast.Attribute)):
+                root = root.value
+            if isinstance(root, ast.Name) and root.id in holders and st.value.func.attr in (
+                    "eliminate_zeros", "prune", "setdiag", "resize", "remove_edge", "remove_edges_from", "remove_node", "remove_nodes_from", "clear", "clear_edges"):
+                cut.append(st)
+    rep.check(okg and not cut, "C15.graph", f"{q}:neighbour-graph", fn.where(cut[0]) if cut else fn.where(), "the traversal runs on the unmodified neighbour graph of all points",
+              whyg if not okg or not cut else f"edges are taken out of the neighbour graph before the traversal ({ast.unparse(cut[0])[:80]}): the points behind a removed edge are never visited, so boundary cells are dropped")
     # every index list that comes from a single-source DFS preorder must be completed or guarded
     bad = []
     n_dfs = 0
